@@ -1733,3 +1733,131 @@ static ld_t det_tolerance(fact_t const *f, qref_t const *R)
     if (!(e < 0.01L)) { return -1; }
     return expm1l(e) * (1 + (ld_t)CSAFE * gam(n + 2)) + (ld_t)CSAFE * gam(n + 2);
 }
+
+/* ------------------------------------------------------------------ case plan */
+#define QUICK_CASES 20001u
+#define THOROUGH_CASES 1500000u
+static uint64_t vf_ncases(int tier) { return tier ? THOROUGH_CASES : QUICK_CASES; }
+
+static void spd_det_agreement(fact_t *llt, det_t dl)
+{
+    unsigned const n = llt->n;
+    qref_t R = quad_reference(n, llt->A0);
+    if (!R.ok) { VF_COUNT("spd-det-skipped-quad-singular"); return; }
+    static unsigned const other_cls[3] = {G_SPD, S_SPD, C_SPD};
+    double det[3] = {0, 0, 0};
+    ld_t tol[3] = {-1, -1, -1};
+    int have[3] = {0, 0, 0};
+    for (int m = 0; m < 3; ++m)
+    {
+        fact_t g, *f = llt;
+        det_t d = dl;
+        if (m != FAM_LLT)
+        {
+            factor(&g, m, other_cls[m], n, EXP_ANY, llt->A0);
+            f = &g;
+            if (g.ok && g.judged) { d = check_det(&g); }
+            else { d.have_det = 0; }
+        }
+        if (f->ok && f->judged && d.have_det)
+        {
+            tol[m] = det_tolerance(f, &R);
+            det[m] = d.det;
+            if (tol[m] >= 0)
+            {
+                have[m] = 1;
+                q_t const rel = fabsq(((q_t)d.det - R.det) / R.det);
+                double const ratio = (double)(rel / (q_t)tol[m]);
+                char rn[40];
+                snprintf(rn, sizeof(rn), "a_real_%s_det", fam_name[m]);
+                cnt(fam_name[m], "_det-equals-quad-determinant-of-input");
+                mx(fam_name[m], "_det-vs-quad-ratio", ratio);
+                if (!(ratio <= 1.0))
+                {
+                    viol2(rn, "not-determinant-of-spd-input", "%s n=%u class=%s: returned %.17g, quad-precision determinant of the input %.17g, relative difference %.3e, rigorous tolerance %.3e",
+                          rn, n, llt->cname, d.det, (double)R.det, (double)rel, (double)tol[m]);
+                }
+            }
+            else { VF_COUNT("spd-det-skipped-ill-conditioned"); }
+        }
+        if (m != FAM_LLT) { fact_free(&g); }
+    }
+    if (have[0] && have[1] && have[2])
+    {
+        double worst = 0;
+        int wa = 0, wb = 1;
+        for (int a = 0; a < 3; ++a)
+        {
+            for (int b = a + 1; b < 3; ++b)
+            {
+                q_t const rel = fabsq(((q_t)det[a] - det[b]) / R.det);
+                double const ratio = (double)(rel / (q_t)(tol[a] + tol[b]));
+                if (ratio > worst || !(ratio == ratio)) { worst = ratio; wa = a; wb = b; }
+            }
+        }
+        VF_COUNT("spd-det-three-methods-agree");
+        VF_MAX("spd-det-three-methods-spread-ratio", worst);
+        if (!(worst <= 1.0))
+        {
+            viol2("spd-det", "methods-disagree", "n=%u class=%s: det by %s = %.17g, by %s = %.17g differ by %.4g times the summed tolerances", n, llt->cname, fam_name[wa], det[wa],
+                  fam_name[wb], det[wb], worst);
+        }
+    }
+    free(R.absinv);
+}
+
+static void vf_case(uint64_t c, vf_rng *r)
+{
+    int const fam = (int)(c % 3);
+    uint64_t const idx = c / 3;
+    uint64_t const per_fam = vf_ncases(vf.tier) / 3;
+    uint64_t const nstruct = per_fam * 6 / 10;
+    unsigned n, cls;
+    if (idx < nstruct)
+    {
+        n = (unsigned)(idx % 12) + 1; /* n = 1..12 over every structure class, repeatedly */
+        cls = (unsigned)((idx / 12) % ncls(fam));
+    }
+    else
+    {
+        double const u = vf_unit(r);
+        n = vf_chance(r, 1, 3) ? 1 + (unsigned)vf_below(r, 12) : 13 + (unsigned)(36.0 * u * u);
+        if (n > NMAX) { n = NMAX; }
+        cls = (unsigned)vf_below(r, ncls(fam));
+    }
+    double *A0 = (double *)malloc((size_t)n * n * sizeof(double));
+    char note[160];
+    int expect;
+    if (fam == FAM_PLU) { expect = gen_general(cls, n, r, A0, note, sizeof(note)); }
+    else if (fam == FAM_LDL) { expect = gen_sym(cls, n, r, A0, note, sizeof(note)); }
+    else { expect = gen_spd(cls, n, r, A0, note, sizeof(note)); }
+    vf_log("family=%s n=%u class=%s %s expect=%s", fam_name[fam], n, cls_name(fam, cls), note,
+           expect == EXP_FAIL ? "failure (pivot exactly vanishing by construction)" : expect == EXP_SUCCESS ? "success (exactly factorable)" : "either");
+    log_matrix("A", A0, n, n);
+
+    fact_t f;
+    factor(&f, fam, cls, n, expect, A0);
+    if (!f.ok && expect == EXP_FAIL && vf_want_sample() && n >= 2 && n <= 4 && c % 5 == 1)
+    {
+        vf_sample("a_real_%s n=%u class=%s (%s): A[0][0..1]=(%g,%g): failure reported as required", fam_name[fam], n, f.cname, note, A0[0], A0[1]);
+    }
+    if (f.ok && f.judged)
+    {
+        if (vf_want_sample() && n >= 3 && n <= 6 && c % 11 == 4)
+        {
+            vf_sample("a_real_%s n=%u class=%s A[0][0..2]=(%.6g,%.6g,%.6g): factors finite, shape ok, reconstruction within c*gamma bound; signature=%#" PRIx64, fam_name[fam], n,
+                      f.cname, A0[0], A0[1], A0[2], f.sig);
+        }
+        check_extract(&f);
+        check_solves(&f, r, 0);
+        check_solves(&f, r, 1);
+        check_inverse(&f);
+        det_t d = check_det(&f);
+        if (fam == FAM_LLT && n <= 24 && (cls == C_SPD || cls == C_SPD_INT || cls == C_SCALED || cls == C_DIAG || cls == C_TRIDIAG))
+        {
+            spd_det_agreement(&f, d);
+        }
+    }
+    fact_free(&f);
+    free(A0);
+}
